@@ -21,9 +21,9 @@ class GDevice(Device):
   considered.
 
   '''
-  _cost_fn = None
-  _cost_d1_fn = None
-  _cost_d2_fn = None
+  _cost_fn = np.poly1d([0])
+  _cost_d1_fn = np.poly1d([0])
+  _cost_d2_fn = np.poly1d([0])
   _cost_coeffs = None
 
   def costv(self, s, p):
